@@ -300,6 +300,7 @@ fn create_sut_logged(s: &Suite, cfg: Cfg, tag: &str, log: bool) -> Result<(Sut, 
 /// Execute one history on a fresh store. `expect_outs_hash`: hash of the outcomes the
 /// prefix (all but the last op) produced when it was first explored.
 pub fn run_path(s: &Suite, hist: &[u16], parent_outs_hash: Option<u64>, verbose: bool) -> PathOutcome {
+    crate::util::set_context(serde_json::json!({"engine": "seq", "suite": s.name, "history_indices": hist, "history": describe_hist(s, hist)}));
     let mut po = PathOutcome::default();
     let mut sut = match create_sut_logged(s, s.cfg, "seq", s.log_io) {
         Ok((sut, base)) => {
